@@ -1,6 +1,6 @@
 (** Theorems about the Next / NextCh / Reset machine of Model/Retry.v (property
     C17), for every label sequence. *)
-From Shk Require Import Base.Prelude Model.Retry Proofs.RetryProofs Proofs.RetryInv.
+From Shk Require Import Base.Prelude Model.Retry Proofs.RetryProofs Proofs.RetryInv Corr.C17.
 From Coq Require Import ZifyBool.
 Open Scope Z_scope.
 
@@ -323,3 +323,14 @@ Definition wide_opts : opts :=
 Lemma nonpositive_delays :
   retry_in decayed_opts 45 (1 # 2) = 0 /\ retry_in wide_opts 0 (1 # 10) = -2999999 /\ retry_in wide_opts 0 (2 # 5) = 0.
 Proof. vm_compute. repeat split. Qed.
+
+(** The shortcut the correspondence uses to reach deep schedule positions is
+    the state component of the model's own NextCh step. *)
+Lemma skip_nextch_is_step s u :
+  u_ok u = true -> ph s = PIdle ->
+  exists ob, step s (LCallNextCh u) = Some (skip_nextch s u, ob).
+Proof.
+  intros Hu Hp. unfold step, skip_nextch. rewrite Hu, Hp. cbn [negb].
+  destruct (is_reset s); [eexists; reflexivity|].
+  destruct ((0 <? max_retries (ropts s)) && (max_retries (ropts s) <? cur s + 1)); eexists; reflexivity.
+Qed.
